@@ -93,6 +93,9 @@ func runOneHistory(cfg *RunCfg, rep *Reporter, cov *Cov, idx, steps int) {
 		cov.Add("ops."+op.Kind, 1)
 		h.step(&op)
 	}
+	if !h.failed && h.aborted == "" && h.prop == "C20" {
+		h.recheckBackup(filepath.Join(h.scratch, h.id+"-bk"))
+	}
 	if !h.failed && h.aborted == "" {
 		// final close with the closed-directory checks
 		fin := Op{Kind: "reopen", Opts: &h.opts, Note: "final"}
@@ -1710,6 +1713,11 @@ func (h *Hist) doBackup(op *Op) {
 	if _, err := os.Stat(dst); err != nil {
 		fresh = true
 	}
+	// a backup is a snapshot: whatever happened to the source since, the previous backup must still
+	// answer as it did right after its call
+	if !h.recheckBackup(dst) {
+		return
+	}
 	// repeated backups are only specified while the source has only been appended to
 	if !fresh && h.dirtySinceBackup() {
 		os.RemoveAll(dst)
@@ -1769,7 +1777,7 @@ func (h *Hist) doBackup(op *Op) {
 		h.fail(&Fail{Sig: fmt.Sprintf("backup:answers-differ:%s:%s", kind, call), What: fmt.Sprintf("the %s backup (%s) answers differently from the source: %s", kind, op.Variant, why)})
 		return
 	}
-	// the backup must also equal the model
+	h.bkObs, h.bkOO, h.bkOpts = got, oo, o
 	h.markBackup()
 	kind := "fresh"
 	if !fresh {
@@ -1809,6 +1817,36 @@ func (h *Hist) dirtySinceBackup() bool {
 }
 
 func (h *Hist) markBackup() {}
+
+// recheckBackup opens (a copy of) the last backup again and compares it with the observation
+// recorded right after the Backup call.
+func (h *Hist) recheckBackup(dst string) bool {
+	if h.bkObs == nil {
+		return true
+	}
+	if _, err := os.Stat(dst); err != nil {
+		h.bkObs = nil
+		return true
+	}
+	bdir := h.tmpDir("bkagain")
+	must(copyDir(dst, bdir))
+	defer os.RemoveAll(bdir)
+	l, err := kOpen(bdir, h.bkOpts)
+	if err != nil {
+		h.fail(failf("backup:later-open-error:"+errClass(err), "a backup that opened fine right after the call no longer opens after the source was used: %s", errText(err)))
+		return false
+	}
+	got := observe(l, h.bkOO)
+	kClose(l)
+	h.cov.Add("evaluations", 1)
+	if why, diff := diffObs(h.bkObs, got); diff {
+		call := callOf(strings.Trim(strings.SplitN(why, " vs ", 2)[0], `"`))
+		h.fail(&Fail{Sig: "backup:changed-after-the-call:" + call, What: "the backup no longer answers as it did right after the Backup call (the source was used in between): " + why})
+		return false
+	}
+	h.bkObs = nil
+	return true
+}
 
 // ---------------------------------------------------------------------------------------
 // C19 read-only session inside a history
